@@ -98,16 +98,18 @@ Section Transform.
   Lemma hash_run_T run : run_ok scanned run -> hash_run (hf_transform o n) run = flat_map titem run.
   Proof.
     intros [Hin Hh]. destruct run as [|[old rep] tl]; [reflexivity|].
-    unfold hash_run. rewrite hf_transform_nofail.
     assert (Hrep : In rep scanned) by (apply (Hin (old, rep)); left; auto).
     assert (Hx : forall x, In x ((old, rep) :: tl) ->
               hasT (snd x) = hasT rep /\ thash (snd x) = thash rep /\ tlen (snd x) = tlen rep).
     { intros x Hx. specialize (Hh x Hx). unfold item_same_id in Hh. cbn [snd] in Hh. apply same_id_spec in Hh.
       apply T_of_id; auto. }
     destruct (hasT rep) eqn:E.
-    - symmetry. apply flat_map_singletons. intros x Hx0. destruct (Hx x Hx0) as (E1 & E2 & E3).
+    - assert (Hs : hf_transform o n rep old = Some (thash rep, tlen rep)) by (rewrite hf_transform_nofail, E; reflexivity).
+      rewrite (hash_run_head _ _ _ _ _ _ Hs). symmetry. apply flat_map_singletons. intros x Hx0. destruct (Hx x Hx0) as (E1 & E2 & E3).
       unfold titem, tfile. rewrite E1, E2, E3. reflexivity.
-    - symmetry. apply flat_map_nils. intros x Hx0. destruct (Hx x Hx0) as (E1 & _). unfold titem. rewrite E1. auto.
+    - rewrite hash_run_all_fail.
+      + symmetry. apply flat_map_nils. intros x Hx0. destruct (Hx x Hx0) as (E1 & _). unfold titem. rewrite E1. auto.
+      + intros x Hx0. destruct (Hx x Hx0) as (E1 & _). rewrite hf_transform_nofail, E1. reflexivity.
   Qed.
 
   Lemma hashed_T items : (forall x, In x items -> In (snd x) scanned) ->
